@@ -64,7 +64,18 @@ def handlePath (sc tr : Json) : Json :=
   let v7 := if jobj tr "child_back" == Json.str irel then [] else ["child_parent"]
   let v8 := if (isNull (jobj tr "parent")) == iparts.isEmpty then [] else ["parent.root"]
   let v9 := if isNull (jobj tr "parent") || jobj tr "parent" == Json.str ("/".intercalate iparts.dropLast) then [] else ["parent"]
-  let viol := v1 ++ v2 ++ v3 ++ v4 ++ v5 ++ v6 ++ v7 ++ v8 ++ v9
+  -- paths obtained through getParent / getChild are as canonical as constructed ones: the absolute path is root + "/" +
+  -- relative (the root itself for the root), and they equal / hash like the path constructed from their own parts
+  -- (for cgroup-fs roots that are themselves canonical: non-empty and without a trailing slash once the constructor has
+  --  stripped one - a root like "/r//" or "" keeps its oddity in every absolute path, constructed or derived alike)
+  let saneFs := !ifs.isEmpty && !ifs.endsWith "/"
+  let absOf (parts : List String) : String := if parts.isEmpty then ifs else ifs ++ "/" ++ "/".intercalate parts
+  let v10 := if !saneFs || isNull (jobj tr "parent") || jstr tr "parent_abs" == absOf iparts.dropLast then [] else ["absolute.of_parent"]
+  let v11 := if !saneFs || isNull (jobj tr "parent") || jbool tr "parent_canon" then [] else ["child_parent.parent_not_canonical"]
+  let v12 := if !saneFs || jbool tr "child_canon" then [] else ["child.not_canonical"]
+  let v13 := if !saneFs || isNull (jobj tr "child_back") || jstr tr "child_back_abs" == iabs then [] else ["child_parent.absolute"]
+  let v14 := if !saneFs || isNull (jobj tr "child_back") || jbool tr "child_back_canon" then [] else ["child_parent.eq_hash"]
+  let viol := v1 ++ v2 ++ v3 ++ v4 ++ v5 ++ v6 ++ v7 ++ v8 ++ v9 ++ v10 ++ v11 ++ v12 ++ v13 ++ v14
   verdict id diffs.isEmpty viol.isEmpty viol "" [("diff", mkStrs diffs), ("model", model)]
 
 def handlePair (sc tr : Json) : Json :=
